@@ -25,7 +25,7 @@ INTEGRATE_KEYS = [
 DEFAULT_WEIGHTS = {
     "root": 2.0, "slice": 2.0, "multiply": 5.0, "product": 1.5, "get_density": 2.0, "normalize": 1.0,
     "marginal": 1.0, "linear_sum": 0.7, "condition_on": 1.2, "cond_x": 1.5, "set_y": 1.2, "affine": 3.0,
-    "update": 1.0, "update_sigma": 0.5, "obs": 6.0,
+    "update": 1.0, "update_sigma": 0.5, "obs": 6.0, "truncate": 0.8,
 }
 
 
@@ -172,7 +172,7 @@ class Gen:
         return {"op": "root", "cls": cls, "kw": kw, "variant": variant, "out": self.nid()}
 
     def g_slice(self):
-        s = self.pick(pred=lambda s: s.u is None and s.cls not in model.APPROX)
+        s = self.pick(pred=lambda s: s.u is None and s.cls not in model.APPROX and s.kind != "trunc")
         if s is None:
             return None
         return {"op": "slice", "a": s.id, "idx": self.r.idx_array(s.R, maxlen=min(s.R + 1, 5)), "out": self.nid()}
@@ -210,8 +210,20 @@ class Gen:
         s = self.pick(("measure", "pdf"))
         return None if s is None else {"op": "get_density", "a": s.id, "out": self.nid()}
 
+    def aliased(self):
+        """ids of measures a truncated object keeps a reference to: an in-place mutator would change the
+        derived object behind its back (aliasing, outside every property) - never generated."""
+        out = set()
+        for t in self.w.slots.values():
+            if t.kind == "trunc":
+                for s in self.w.slots.values():
+                    if s.obj is t.obj.measure or s.obj is getattr(t.obj, "density", None):
+                        out.add(s.id)
+        return out
+
     def g_normalize(self):
-        s = self.pick(("measure", "pdf"))
+        al = self.aliased()
+        s = self.pick(("measure", "pdf"), lambda s: s.id not in al)
         return None if s is None else {"op": "normalize", "a": s.id}
 
     def g_marginal(self):
@@ -292,7 +304,8 @@ class Gen:
 
     def g_update(self):
         r = self.r
-        a = self.pick(("pdf",), lambda s: s.by != "update_target_block")
+        al = self.aliased()
+        a = self.pick(("pdf",), lambda s: s.id not in al)
         if a is None:
             return None
         k = r.integers(1, a.R)
@@ -313,6 +326,28 @@ class Gen:
             return None
         diag = "Diag" in c.cls
         return {"op": "update_sigma", "a": c.id, "Sigma": self.r.spd(c.R, int(c.obj.Dy), self.cfg["cond_max"], diag=diag)}
+
+    def g_truncate(self):
+        r = self.r
+        m = self.pick(("measure", "pdf"), lambda s: s.D == 1)
+        if m is None:
+            if not r.coin(0.5):
+                return None
+            root = self.g_root(r.choice(MEASURE_ROOTS + PDF_ROOTS), D=1)
+            if not self.emit(root):
+                return None
+            m = self.w.slots[root["out"]]
+        o = m.obj
+        Lam, nu = ref.A(o.Lambda)[:, 0, 0], ref.A(o.nu)[:, 0]
+        mu, sd = nu / Lam, 1.0 / np.sqrt(Lam)
+        # limits stay within a few standard deviations of the mode: far-tail cdf differences cancel
+        lo = mu + sd * r.uniform(-2.5, 0.5, (m.R,))
+        hi = lo + sd * r.uniform(0.7, 3.0, (m.R,))
+        side = r.wchoice(["both", "lower", "upper"], [3, 1, 1])
+        rec = {"op": "truncate", "a": m.id, "pdf": r.coin(0.4), "out": self.nid(),
+               "lower": lo[:, None] if side in ("both", "lower") else None,
+               "upper": hi[:, None] if side in ("both", "upper") else None}
+        return rec
 
     # observers
     def coefs(self, key, D, R, per_component=False):
@@ -361,6 +396,22 @@ class Gen:
         if s is None:
             return None
         rec = {"op": "obs", "a": s.id}
+        if s.kind == "trunc":
+            name = r.wchoice(["trunc_call", "trunc_integrate", "trunc_density_call"], [2, 4, 1])
+            rec["name"] = name
+            if name == "trunc_integrate":
+                rec["key"] = r.choice(["1", "x", "x**2", "x**k"])
+                if rec["key"] == "x**k":
+                    rec["k"] = r.integers(0, 5)
+            else:
+                ew = name == "trunc_call" and r.coin(0.25)
+                o = s.obj.measure
+                mu = ref.A(o.nu)[:, 0] / ref.A(o.Lambda)[:, 0, 0]
+                sd = 1.0 / np.sqrt(ref.A(o.Lambda)[:, 0, 0])
+                N = s.R if ew else r.integers(1, 4)
+                rec["x"] = (np.mean(mu) + np.max(sd) * r.normal((N, 1), 1.5))
+                rec["ew"] = ew
+            return rec
         if s.kind == "factor":
             name = r.wchoice(["evaluate_ln", "evaluate", "attrs", "to_dict"], [4, 1, 2, 1])
         elif s.kind == "measure":
@@ -462,7 +513,7 @@ class Gen:
                 n_ops += 1
         # close the history with observations of everything still alive
         for s in sorted(self.w.live(), key=lambda s: s.id)[-4:]:
-            if s.u is not None:
+            if s.u is not None or s.kind == "trunc":
                 continue  # the NN-controlled object itself is not a batch of R_u components
             rec = {"op": "obs", "a": s.id, "name": "attrs"}
             self.emit(rec)
